@@ -709,7 +709,11 @@ func reqHeaders(path string) []hpack.HeaderField {
 
 // ---- family 1: flow control ---------------------------------------------------------------------------
 
-func flowScenario(x *explore.X, depth int) {
+func flowScenario(x *explore.X, depth int) { flowScenarioCfg(x, depth, false) }
+
+// flowScenarioCfg: reduced = only the 8-octet window and an ample connection window (the quick tier trades
+// set-ups for one more step of depth: a window must go negative and be re-opened before it can be overrun).
+func flowScenarioCfg(x *explore.X, depth int, reduced bool) {
 	// the order in which the relay visits its per-stream queues (a Go map) is an explored choice
 	var y *sys
 	vsync.MapOrder = func(label string, n int) int {
@@ -732,8 +736,11 @@ func flowScenario(x *explore.X, depth int) {
 	y = newSys(x)
 	defer y.stop()
 	dir := x.ChooseFree("data-direction", 2) // 0: client -> server, 1: server -> client
-	w := []int{8, 16}[x.ChooseFree("window", 2)]
-	tight := x.ChooseFree("connection-window", 2) == 1 // connection window nearly exhausted by an earlier stream
+	w, tight := 8, false
+	if !reduced {
+		w = []int{8, 16}[x.ChooseFree("window", 2)]
+		tight = x.ChooseFree("connection-window", 2) == 1 // connection window nearly exhausted by an earlier stream
+	}
 	a, b := y.c, y.s
 	if dir == 1 {
 		a, b = y.s, y.c
@@ -1159,7 +1166,7 @@ func testH2(t *testing.T, prop string) {
 	var s *explore.Suite
 	if prop == "C09" {
 		s = explore.NewSuite(t, "C09", "model_checking",
-			"a real relay pair (newRelay x2, relayFrames running) between two raw-frame endpoints on simulated pipes; (flow) receiver window w in {8,16} x data direction x connection window {ample, w+4 left} then EVERY sequence of depth 3 (quick) / 5 (thorough) over the menu {DATA sizes 3/w/w+1 on 2 streams, padded DATA, empty END_STREAM DATA, RST, trailers, WINDOW_UPDATE stream/connection by 1/w, SETTINGS_INITIAL_WINDOW_SIZE down (w/2) and up (2w)} with explicit-state dedupe on (relay windows and queues, receiver ledger); (frame-size) SETTINGS_MAX_FRAME_SIZE changes of both endpoints x DATA of 16384..40000 octets x header blocks of 20000/40000 octets x PUSH_PROMISE, depth 3/4; oracles at every quiescent state: every DATA frame fits the credit its receiver had granted on stream and connection, no frame exceeds the receiver's MAX_FRAME_SIZE, WINDOW_UPDATEs returned to a sender = flow-controlled octets (incl. padding) it sent on stream and connection, no queued frame that fits is held back")
+			"a real relay pair (newRelay x2, relayFrames running) between two raw-frame endpoints on simulated pipes; (flow) receiver window w in {8,16} x data direction x connection window {ample, w+4 left} then EVERY sequence of depth 3 (quick; depth 4 for the 8-octet window with an ample connection window) / 5 (thorough) over the menu {DATA sizes 3/w/w+1 on 2 streams, padded DATA, empty END_STREAM DATA, RST, trailers, WINDOW_UPDATE stream/connection by 1/w, SETTINGS_INITIAL_WINDOW_SIZE down (w/2) and up (2w)} with explicit-state dedupe on (relay windows and queues, receiver ledger); (frame-size) SETTINGS_MAX_FRAME_SIZE changes of both endpoints x DATA of 16384..40000 octets x header blocks of 20000/40000 octets x PUSH_PROMISE, depth 3/4; oracles at every quiescent state: every DATA frame fits the credit its receiver had granted on stream and connection, no frame exceeds the receiver's MAX_FRAME_SIZE, WINDOW_UPDATEs returned to a sender = flow-controlled octets (incl. padding) it sent on stream and connection, no queued frame that fits is held back")
 	} else {
 		s = explore.NewSuite(t, "C10", "model_checking",
 			"a real relay pair between two raw-frame endpoints with their own HPACK state; (fidelity) EVERY sequence of depth 3 (quick) / 4 (thorough) over a menu of ~25-40 enabled events on 2 streams in both directions {HEADERS plain / with priority / END_STREAM / split by the sender into HEADERS+CONTINUATION at several points / 20000-octet block, DATA small / padded / 20000 octets / empty END_STREAM, trailers (+CONTINUATION), RST_STREAM, PUSH_PROMISE, PRIORITY, PING, SETTINGS incl. HEADER_TABLE_SIZE 0/4096, SETTINGS ack, GOAWAY}; (flow) the flow family of C09 with its no-stranding and final-delivery oracles; at every quiescent state the receiver's decoded element sequence per stream (header lists, concatenated DATA, END_STREAM position, RST code, PUSH_PROMISE) must be a prefix of what the sender emitted, connection-level frames must be relayed in order, and at the end everything emitted must have been decoded")
@@ -1172,6 +1179,7 @@ func testH2(t *testing.T, prop string) {
 	}
 	if prop == "C09" {
 		s.Add(explore.Scenario{Name: "flow-quick", Remote: true, Tiers: []string{"quick"}, Run: runBubble(t, func(x *explore.X) { flowScenario(x, q) })})
+		s.Add(explore.Scenario{Name: "flow-quick-deep", Remote: true, Tiers: []string{"quick"}, Run: runBubble(t, func(x *explore.X) { flowScenarioCfg(x, q+1, true) })})
 		s.Add(explore.Scenario{Name: "flow-thorough", Remote: true, Tiers: []string{"thorough"}, Run: runBubble(t, func(x *explore.X) { flowScenario(x, th) })})
 		s.Add(explore.Scenario{Name: "relay-interleavings", Remote: true, MaxDev: map[string]int{"quick": 1, "thorough": 2}, Run: func(x *explore.X) { schedScenario(t, x) }})
 		s.Add(explore.Scenario{Name: "frame-size-quick", Remote: true, Tiers: []string{"quick"}, Run: runBubble(t, func(x *explore.X) { frameSizeScenario(x, 3) })})
